@@ -276,6 +276,10 @@ Opaque(err) == [err |-> err, rw |-> None, ro |-> None]
 UNFinish(rwkept, ro, rosrc, deep) ==
   LET perr == IF ro.present THEN Parse(ro.s, deep) ELSE [kind |-> "Unknown", err |-> "none"] IN
   IF ro.present /\ perr.kind = "Unknown" /\ perr.err # "none" THEN Opaque(perr.err)
+  \* a cap of a known kind in the read slot must not be a write cap (it would be stored in the clear
+  \* part of a directory entry): rejected like any cap failing the read-only constraint
+  \* (behaviour since the "fix: UnknownNode accepted a known write-cap in the ro_uri slot" commit)
+  ELSE IF ro.present /\ perr.kind \in WriteKinds THEN Opaque("ro")
   ELSE IF deep THEN
          [err |-> "none", rw |-> None,
           ro |-> IF ~ro.present THEN None
